@@ -117,7 +117,7 @@ def run(tier):
     if quick:
         runs += [
             ("rt-d2f3", "ZipImpl", "SpecRTI", consts(NNames=2, Contents=[0, 1, 2], MaxDepth=2, MaxFiles=3), rt_inv_i, "ViewRTI", ["plain", "odd"]),
-            ("rt-d3f2", "ZipImpl", "SpecRTI", consts(NNames=2, Contents=[0, 1], MaxDepth=3, MaxFiles=2), rt_inv_i, "ViewRTI", ["plain"]),
+            ("rt-d3f2", "ZipImpl", "SpecRTI", consts(NNames=2, Contents=[0, 1], MaxDepth=3, MaxFiles=2), rt_inv_i, "ViewRTI", ["plain", "stale"]),
             ("rt-dirs", "ZipImpl", "SpecRTI", consts(NNames=2, Contents=[0, 1], MaxDepth=2, MaxFiles=2, MaxDirs=1), rt_inv_i, "ViewRTI", ["odd"]),
             ("ex-seg4", "ZipImpl", "SpecExI", consts(Segs=SEG4, MaxLen=3, MaxEntries=3, Slashes=[False, True]), ex_inv_i, "ViewExI", ["plain"]),
             ("ex-dest", "ZipImpl", "SpecExI", consts(Segs=SEGD, MaxLen=3, MaxEntries=2, Slashes=[False, True], DirFlags=[False, True],
@@ -127,7 +127,7 @@ def run(tier):
     else:
         runs += [
             ("rt-d2f3", "ZipImpl", "SpecRTI", consts(NNames=2, Contents=[0, 1, 2], MaxDepth=2, MaxFiles=3, MaxDirs=1), rt_inv_i, "ViewRTI", ["plain", "odd"]),
-            ("rt-d3f3", "ZipImpl", "SpecRTI", consts(NNames=2, Contents=[0, 1], MaxDepth=3, MaxFiles=3), rt_inv_i, "ViewRTI", ["plain", "odd"]),
+            ("rt-d3f3", "ZipImpl", "SpecRTI", consts(NNames=2, Contents=[0, 1], MaxDepth=3, MaxFiles=3), rt_inv_i, "ViewRTI", ["plain", "odd", "stale"]),
             ("rt-n3d2", "ZipImpl", "SpecRTI", consts(NNames=3, Contents=[0, 1, 2], MaxDepth=2, MaxFiles=3), rt_inv_i, "ViewRTI", ["odd"]),
             ("ex-seg4", "ZipImpl", "SpecExI", consts(Segs=SEG4, MaxLen=3, MaxEntries=3, Slashes=[False, True], DestExists=[False, True]),
              ex_inv_i, "ViewExI", ["plain", "odd"]),
